@@ -341,7 +341,26 @@ func c03GenPeriod(r *verifh.Rng) verifh.Section {
 	if align == 1 {
 		tz = r.Pick(0, 20700, -34200, 3600, 43200) // zone offset of time.Local in seconds (Align() adds it to the unix time)
 	}
-	return verifh.Section{Cfg: fmt.Sprintf("kind=period quota=%d period=%d align=%d nlim=%d tz=%d npre=%d", quota, period, align, nlim, tz, npre), Ops: ops}
+	rtype := "node"
+	if r.Chance(1, 12) {
+		// a store client of a type getRedis does not know: every call ends in an error before anything is sent
+		rtype = "bogus"
+		ops = nil
+		for j, n := 0, r.Range(4, 12); j < n; j++ {
+			k := key()
+			switch r.Intn(6) {
+			case 0:
+				ops = append(ops, fmt.Sprintf("ft %d", r.Range(1, win*1000)))
+			case 1:
+				ops = append(ops, r.PickS("takex ", "taked ", "takef ")+k)
+			case 2:
+				ops = append(ops, fmt.Sprintf("takec %s %d", k, r.Intn(nlim)))
+			default:
+				ops = append(ops, "take "+k)
+			}
+		}
+	}
+	return verifh.Section{Cfg: fmt.Sprintf("kind=period quota=%d period=%d align=%d nlim=%d tz=%d npre=%d rtype=%s", quota, period, align, nlim, tz, npre, rtype), Ops: ops}
 }
 
 func c03GenToken(r *verifh.Rng) verifh.Section {
@@ -601,7 +620,21 @@ func c03GenToken(r *verifh.Rng) verifh.Section {
 		ops = append(ops, "up")
 		allow(0)
 	}
-	return verifh.Section{Cfg: fmt.Sprintf("kind=token rate=%d burst=%d ninst=%d", rate, burst, ninst), Ops: ops}
+	rtype := "node"
+	if rate > 0 && r.Chance(1, 14) {
+		// a store client of a type getRedis does not know: every script call fails before anything is sent, every
+		// instance decides locally from its first request on, no ping ever succeeds
+		rtype = "bogus"
+		ops = nil
+		for j, n := 0, r.Range(5, 16); j < n; j++ {
+			if r.Chance(1, 4) {
+				ft()
+				continue
+			}
+			ops = append(ops, fmt.Sprintf("%s %d %d %d", r.PickS("allow", "allow", "allowc", "allowx", "allowd", "allowf"), r.Intn(ninst), now(), size()))
+		}
+	}
+	return verifh.Section{Cfg: fmt.Sprintf("kind=token rate=%d burst=%d ninst=%d rtype=%s", rate, burst, ninst, rtype), Ops: ops}
 }
 
 // arguments nothing validates: negative rate / burst / n (rate = 0 is in c03GenToken: the constructor panics).
@@ -837,11 +870,15 @@ func TestVerifC03(t *testing.T) {
 		warm() // every section starts with both scripts in the server's cache (an earlier section may have flushed them)
 		mr.FlushAll()
 		c03CleanBreaker()
+		secStore := store
+		if cfg.Str("rtype", "node") == "bogus" {
+			secStore = redis.New(mr.Addr(), func(r *redis.Redis) { r.Type = "bogus" })
+		}
 		switch cfg.Str("kind", "") {
 		case "period":
-			return c03Period(mr, store, cfg)
+			return c03Period(mr, secStore, cfg)
 		case "token", "tokennow":
-			return c03Token(mr, store, cfg)
+			return c03Token(mr, secStore, cfg)
 		case "tokenkeys":
 			return c03TokenKeys(mr, store, cfg)
 		case "tokenz":
@@ -1432,6 +1469,9 @@ func c03Token(mr *miniredis.Miniredis, store *redis.Redis, cfg verifh.Cfg) (func
 	}
 	return step, func() {
 		c03Mode.Store(0)
+		if cfg.Str("rtype", "node") == "bogus" {
+			return // no ping can ever succeed: the monitors of this section are left behind (they only call getRedis)
+		}
 		settle(20 * time.Second)
 	}
 }
